@@ -351,6 +351,51 @@ class Ctx:
         self.count("T", segments=len(starts), rejected_segments=len(failures))
         return failures
 
+    # ---------------------------------------------------------------- apalache (unbounded-length leg)
+    def apalache_ind(self, module, init, inv, length, cinit=None, timeout=300, expect=None):
+        """One proof obligation of an inductive-invariant argument, discharged by Apalache (symbolic, SMT):
+        `apalache-mc check --init=<init> --inv=<inv> --length=<length> [--cinit=<cinit>] <module>.tla`, run in the
+        scratch copy of specs/ with its output and temporary directories inside the scratch directory (offline,
+        deterministic: z3 with Apalache's fixed seed).  length=0 from Init = base case, length=1 from the invariant
+        itself = inductive step.  Returns "ok" (no counterexample: the obligation is PROVED for the fixed constants,
+        for behaviours of any length) or "violated" (counterexample found).  expect="ok"|"violated": anything else
+        raises MachineryError (a must-fail sensitivity run that passes means the leg is vacuous).  Tool errors
+        (parse/type errors, deadlock, unexpected exit code) and time-outs always raise MachineryError (exit 2)."""
+        od = tempfile.mkdtemp(prefix="apa-", dir=self.scratch)
+        cmd = ["apalache-mc", "check", "--out-dir=" + od, "--init=" + init, "--inv=" + inv, "--length=%d" % length]
+        if cinit:
+            cmd.append("--cinit=" + cinit)
+        cmd.append(module + ".tla")
+        e = dict(os.environ)
+        e["TMPDIR"] = od                      # the launcher creates its SANY temp dir there (removed with the scratch)
+        e.pop("JAVA_TOOL_OPTIONS", None)      # TLC tuning of the checks (C1-only JIT) slows the SMT encoder down
+        what = "%s init=%s inv=%s length=%d%s" % (module, init, inv, length, " cinit=" + cinit if cinit else "")
+        t = time.time()
+        try:
+            p = subprocess.run(cmd, cwd=self.specs(), env=e, capture_output=True, text=True, timeout=timeout)
+        except subprocess.TimeoutExpired:
+            subprocess.run(["pkill", "-f", od], capture_output=True)
+            raise MachineryError("Apalache timed out after %ds on %s" % (timeout, what))
+        except OSError as ex:
+            raise MachineryError("Apalache could not be started (%s) on %s" % (ex, what))
+        finally:
+            shutil.rmtree(od, ignore_errors=True)
+        out = p.stdout + p.stderr
+        wall = time.time() - t
+        if p.returncode == 0 and "The outcome is: NoError" in out:
+            res = "ok"
+        elif p.returncode == 12 and re.search(r"(?:state|action|trace) invariant \d+ violated", out):
+            res = "violated"
+        else:
+            raise MachineryError("Apalache error (rc=%s) on %s:\n%s" % (p.returncode, what, out[-2500:]))
+        if expect and res != expect:
+            raise MachineryError("Apalache: %s is %s, expected %s%s" % (
+                what, res, expect, " - the inductive argument is vacuous" if expect == "violated" else
+                " - the invariant is not inductive / does not hold:\n" + out[-2500:]))
+        self.count("S", apalache_runs=1, **{"apalache_" + res: 1})
+        self.log("S apalache %s: %s, %.1fs%s" % (what, res, wall, " (as expected)" if expect == "violated" else ""))
+        return res
+
     # ---------------------------------------------------------------- classification
     def discrepancy(self, sig, what, replay=None):
         """A behaviour of the real code that the spec does not allow. sig is the canonical signature."""
